@@ -76,7 +76,8 @@ PROPS.update({
         "level_text": "Generated-input search over configurations x histories: every batch of every history, encoded under every drawn option set, must decode with a default consumer to the canonical multiset that was encoded. Because every option set is compared with the same option-independent canon(input), equality across option sets (the metamorphic reading) is implied. The evidence carries the histogram of index-width transitions (8>16, 16>32, overflow, reset) actually taken.",
         "design_ref": "DESIGN.md §7 C04",
         "rule": "rapid draws producer options and a 1-8 batch single-signal history (ramp and rich batches); NON-TRIVIAL = the observer saw a dictionary upgrade, overflow or reset, or a schema update after the first batch; DISTINCT = FNV-64 of (option set, per-batch signal/size bucket/new observer event kinds)",
-        "assumptions": OPTION_ASSUME + ["single-signal histories (interleaving is C12/C15's domain)", "strings are valid UTF-8, timestamps <= 2^63-1, nesting <= 16"],
+        "assumptions": OPTION_ASSUME + ["single-signal histories (interleaving is C12/C15's domain)", "strings are valid UTF-8, timestamps <= 2^63-1, nesting <= 16",
+                                        "known finding dict-reset-trailing-nul (arrow-go ApproxEqual strips trailing NULs when the IPC writer compares dictionaries) is probed by TestKnownC04 with its specific history; the generators cannot produce its predicate (ramp strings never end in NUL; a reset needs >=128 matching entries)"],
         "jobs": {
             "quick": [{"test": "TestC04", "shards": 8, "checks": 3200, "timeout": 900}],
             "thorough": [{"test": "TestC04", "shards": 16, "checks": 48000, "timeout": 3000}],
